@@ -780,7 +780,9 @@ func c05FreshCopyOf(c *Ctx, fn *ssa.Function, v, src ssa.Value, before ssa.Instr
 	if d > 2 {
 		return false
 	}
-	isSrc := func(x ssa.Value) bool { return x == src || (ssau.ParamOf(x) != nil && ssau.ParamOf(x) == ssau.ParamOf(src)) }
+	isSrc := func(x ssa.Value) bool {
+		return x == src || (ssau.ParamOf(x) != nil && ssau.ParamOf(x) == ssau.ParamOf(src))
+	}
 	switch x := v.(type) {
 	case *ssa.MakeSlice:
 		for _, cp := range callsTo(fn, "builtin.copy") {
